@@ -66,6 +66,21 @@ def unpackGet (w idx : Nat) (data : Bytes) : Nat :=
   if addr + 8 > data.length ∧ w = 0 then 0
   else (leNat ((data.drop addr).take 8) >>> shift) &&& unpackMask w
 
+/-- mirrors: bitpacker/src/bitpacker.rs::BitUnpacker::get_ids_for_value_range over positions `s..e`:
+widths above `RANGE_LOOKUP_FAST_MAX_BITS` compare the u64 values (`_slow`); otherwise the query
+range is converted to u32 — guard and conversion are the source expressions translated into
+`Gen.range_lookup_*` — and the values are compared as u32 (`_fast`: `get_batch_u32s` +
+`filter_vec_in_place`; the SIMD kernels and BitPacker1x::decompress are taken by their contract
+"same values as `get`"). -/
+def unpackRangeIds (w : Nat) (data : Bytes) (lo hi s e : Nat) : List Nat :=
+  if w > Gen.RANGE_LOOKUP_FAST_MAX_BITS then
+    (List.range' s (e - s)).filter (fun i => decide (lo ≤ unpackGet w i data) && decide (unpackGet w i data ≤ hi))
+  else if Gen.range_lookup_start_too_big (BitVec.ofNat 64 lo) (BitVec.ofNat 64 hi) then []
+  else
+    (List.range' s (e - s)).filter (fun i =>
+      decide ((Gen.range_lookup_start_u32 (BitVec.ofNat 64 lo) (BitVec.ofNat 64 hi)).toNat ≤ unpackGet w i data % 2 ^ 32)
+        && decide (unpackGet w i data % 2 ^ 32 ≤ (Gen.range_lookup_end_u32 (BitVec.ofNat 64 lo) (BitVec.ofNat 64 hi)).toNat))
+
 /-- mirrors: bitpacker/src/lib.rs::compute_num_bits -/
 def computeNumBits (n : Nat) : Nat :=
   let amplitude := if n = 0 then 0 else Nat.log2 n + 1
